@@ -283,6 +283,28 @@ func (r *Run) Inconclusive(reason string) {
 	r.mu.Unlock()
 }
 
+// Flush writes the current state as a partial result (Done=false). A child that may be killed by
+// a process-fatal event calls it periodically so that the driver can merge what was observed
+// before the crash.
+func (r *Run) Flush() {
+	r.mu.Lock()
+	defer r.mu.Unlock()
+	if r.out == "" {
+		return
+	}
+	r.res.WallS = time.Since(r.start).Seconds()
+	r.res.Done = false
+	if b, err := json.Marshal(&r.res); err == nil {
+		tmp := r.out + ".tmp"
+		if os.WriteFile(tmp, b, 0o644) == nil {
+			os.Rename(tmp, r.out)
+		}
+	}
+}
+
+// SkipThrough returns the case key after which a restarted shard resumes ("" if not a restart).
+func SkipThrough() string { return os.Getenv("VERIF_SKIP_THROUGH") }
+
 // Finish writes the shard result.
 func (r *Run) Finish() {
 	r.mu.Lock()
